@@ -61,11 +61,12 @@ def tlc_batch(ctx: core.Ctx, depth: int) -> dict:
     sdir = env.scratch("c05m")
     try:
         mcfg = tlc.write_cfg(sdir / "MC_Forecast_machine_depth.cfg", spec="Spec",
-                             constants={"Part": '"machine"', "Deviation": '"none"', "MaxDepth": depth, "Export": "TRUE"},
+                             constants={"Part": '"machine"', "Deviation": '"none"', "MaxDepth": depth, "Export": "TRUE", "Rebounds": "FALSE"},
                              invariants=["MachineTypeOK", "C05_ForecastUses", "C05_FitResult", "C05_AttrsAreLatestFit",
                                          "ExportLeaf"])
         jobs = [("machine", dict(cfg=mcfg, workers=6, timeout=1500), None)]
         jobs += [(part, dict(cfg=f"MC_Forecast_{part}.cfg", workers=2, timeout=600), None) for part in ("scale", "guess", "bounds")]
+        jobs += [("machine_rebound", dict(cfg="MC_Forecast_machine_rebound.cfg", workers=4, timeout=900), None)]
         jobs += [(dev, dict(cfg=f"MC_Forecast_dev_{dev}.cfg", workers=1, timeout=600, expect_violation=True), inv)
                  for dev, inv in DEVIATIONS]
         with ThreadPoolExecutor(max_workers=5) as ex:
